@@ -34,6 +34,7 @@ type bEngine struct {
 	loopAbs    bool
 	allocMax   *big.Int
 	nilable    bool // pointer fields of symbolic inputs have a symbolic nil-ness
+	nilsafe    bool // dereferences of possibly-nil pointers are obligations (nil-deref)
 	safety     bool // the contract asks for the run-time-panic obligations of make and slicing
 }
 
@@ -566,6 +567,10 @@ var _ = types.Typ
 // (the other path ends in a run-time panic).
 func (e *bEngine) nonNil(st *bState, p bPtr) bPtr {
 	if p.nilv != nil {
+		if e.nilsafe {
+			// `nilsafe`: a dereference of a possibly-nil pointer is an obligation, not an assumption
+			e.oblige(st, "nil-deref", "", Not(p.nilv), "")
+		}
 		st.assumeBranch(Not(p.nilv))
 		p.nilv = nil
 	}
